@@ -70,7 +70,10 @@ def run(ctx):
     tbl = unicode_check.check_tables()
     if tbl:
         disagreements.append({'stream': 'unicode-tables', 'detail': tbl})
-    rejected = (ctx.translate.get('check_valid_rejected') or [])
+    # the table the theorems are about: read from the generated module itself
+    import re as _re
+    gen_cv = open(os.path.join(common.LEAN_PROJ, 'PcfgVerif', 'Generated', 'CheckValid.lean'), encoding='utf-8').read()
+    rejected = [int(x) for x in _re.search(r'def rejected : List Nat := \[([^\]]*)\]', gen_cv).group(1).split(',') if x.strip()]
     mism = unicode_check.check_valid_table(rejected)
     if mism:
         disagreements.append({'stream': 'check_valid-table', 'detail': mism})
